@@ -255,6 +255,9 @@ func (in *Interp) callOpaqueMethod(fr *frame, m *opaqueMethod, args []Value) Val
 			return Iface{}
 		}
 	}
+	if m.o.Kind == "hasher" {
+		return in.hasherMethod(m.o, m.name, args)
+	}
 	panic(engineAbort{"opaque method " + m.o.Kind + "." + m.name})
 }
 
@@ -513,5 +516,108 @@ var _ = big.NewInt
 func init() {
 	intrinsics["regexp.MustCompile"] = func(in *Interp, fr *frame, args []Value) Value {
 		return &Opaque{Kind: "regexp", Data: concStr(args[0])}
+	}
+}
+
+// hash.Hash objects (ripemd160.New): opaque accumulator; Sum applies the hash UF.
+type hasherState struct {
+	alg  string
+	n    int
+	data []Value
+}
+
+func init() {
+	intrinsics["golang.org/x/crypto/ripemd160.New"] = func(in *Interp, fr *frame, args []Value) Value {
+		return Iface{T: opaqueErrType, V: &Opaque{Kind: "hasher", Data: &hasherState{alg: "ripemd160", n: 20}}}
+	}
+}
+
+func (in *Interp) hasherMethod(o *Opaque, name string, args []Value) Value {
+	h := o.Data.(*hasherState)
+	switch name {
+	case "Write":
+		b := args[1].(Slice).A
+		h.data = append(h.data, b...)
+		return Tuple{in.tb.BVConst(64, uint64(len(b))), Iface{}}
+	case "Sum":
+		prefix := args[1].(Slice).A
+		out := append(append([]Value{}, prefix...), in.hashUF(h.alg, h.n, h.data)...)
+		return Slice{A: out}
+	case "Reset":
+		h.data = nil
+		return nil
+	case "Size":
+		return in.tb.BVConst(64, uint64(h.n))
+	}
+	panic(engineAbort{"hasher method " + name})
+}
+
+func init() {
+	intrinsics["internal/bytealg.MakeNoZero"] = func(in *Interp, fr *frame, args []Value) Value {
+		n := in.concreteInt(args[0], true, "MakeNoZero")
+		a := make([]Value, n)
+		for i := range a {
+			a[i] = in.tb.BVConst(8, 0)
+		}
+		return Slice{A: a}
+	}
+	// strings.Builder: buf is field 1 of the struct
+	bufOf := func(p Value) *Value {
+		st := (*(p.(*Value))).(Struct)
+		return &st[1]
+	}
+	appendBytes := func(in *Interp, p Value, bs []Value) {
+		b := bufOf(p)
+		cur := (*b).(Slice)
+		na := make([]Value, 0, len(cur.A)+len(bs))
+		na = append(na, cur.A...)
+		na = append(na, bs...)
+		*b = Slice{A: na}
+	}
+	intrinsics["(*strings.Builder).WriteString"] = func(in *Interp, fr *frame, args []Value) Value {
+		s := args[1].(Str)
+		if s.Opaque {
+			panic(engineAbort{"strings.Builder.WriteString of opaque string"})
+		}
+		appendBytes(in, args[0], in.strBytes(s))
+		return Tuple{in.tb.BVConst(64, uint64(s.Len())), Iface{}}
+	}
+	intrinsics["(*strings.Builder).WriteByte"] = func(in *Interp, fr *frame, args []Value) Value {
+		appendBytes(in, args[0], []Value{args[1]})
+		return Iface{}
+	}
+	intrinsics["(*strings.Builder).WriteRune"] = func(in *Interp, fr *frame, args []Value) Value {
+		r := args[1].(*Term)
+		if !r.IsConst() {
+			panic(engineAbort{"strings.Builder.WriteRune of symbolic rune"})
+		}
+		s := string(rune(toSigned(r.C, 32)))
+		appendBytes(in, args[0], in.strBytes(Str{S: s}))
+		return Tuple{in.tb.BVConst(64, uint64(len(s))), Iface{}}
+	}
+	intrinsics["(*strings.Builder).Write"] = func(in *Interp, fr *frame, args []Value) Value {
+		bs := args[1].(Slice).A
+		appendBytes(in, args[0], bs)
+		return Tuple{in.tb.BVConst(64, uint64(len(bs))), Iface{}}
+	}
+	intrinsics["(*strings.Builder).String"] = func(in *Interp, fr *frame, args []Value) Value {
+		cur := (*bufOf(args[0])).(Slice)
+		bs := make([]*Term, len(cur.A))
+		for i, c := range cur.A {
+			bs[i] = c.(*Term)
+		}
+		s := Str{B: bs}
+		if s.IsConcrete() {
+			return Str{S: s.Concrete()}
+		}
+		return s
+	}
+	intrinsics["(*strings.Builder).Len"] = func(in *Interp, fr *frame, args []Value) Value {
+		return in.tb.BVConst(64, uint64(len((*bufOf(args[0])).(Slice).A)))
+	}
+	intrinsics["(*strings.Builder).Grow"] = func(in *Interp, fr *frame, args []Value) Value { return nil }
+	intrinsics["(*strings.Builder).Reset"] = func(in *Interp, fr *frame, args []Value) Value {
+		*bufOf(args[0]) = Slice{}
+		return nil
 	}
 }
